@@ -91,7 +91,25 @@ func (a *Analyzer) QualifiedResolution() []RuleResult {
 					return
 				}
 				n++
-				ex, isEx := rt.Results[0].(*ssa.Extract)
+				// the resolved path may pass through pure path normalisation (Clean, ToSlash/FromSlash, Abs)
+				rv := rt.Results[0]
+				for i := 0; i < 4; i++ {
+					if c, isCall := rv.(*ssa.Call); isCall && len(c.Call.Args) == 1 {
+						switch shortCallee(c) {
+						case "path/filepath.Clean", "path/filepath.ToSlash", "path/filepath.FromSlash", "path.Clean":
+							rv = c.Call.Args[0]
+							continue
+						}
+					}
+					if e2, isE := rv.(*ssa.Extract); isE && e2.Index == 0 {
+						if c, isCall := e2.Tuple.(*ssa.Call); isCall && shortCallee(c) == "path/filepath.Abs" && len(c.Call.Args) == 1 {
+							rv = c.Call.Args[0]
+							continue
+						}
+					}
+					break
+				}
+				ex, isEx := rv.(*ssa.Extract)
 				ok2 := isEx && ex.Tuple == ssa.Value(ev) && ex.Index == 0
 				why := "returns the resolved path"
 				if !ok2 {
